@@ -61,7 +61,7 @@ def _descend(rng, prob):
     """continue the search from a child of the tree (and possibly from a grandchild) as the new root"""
     if rng.random() >= prob:
         return None
-    return [{"pick": rng.randrange(1000), "extra": rng.choice([1, 2, 5, 12])} for _ in range(rng.choice([1, 1, 2]))]
+    return [{"pick": rng.randrange(1000), "extra": rng.choice([0, 1, 2, 5, 12])} for _ in range(rng.choice([1, 1, 2]))]
 
 
 def plan_sessions(ctx):
@@ -112,7 +112,9 @@ def plan(ctx, scale=1.0):
                 n = min(n, 60 if size <= 4 else 20)
             reuse = None
             if rng.random() < 0.35:
-                reuse = n + rng.choice([1, 2, 5, max(1, n // 2)])
+                # the same tree searched again: with a larger budget, or with the budget it has already
+                # used up (then nothing may happen)
+                reuse = n + rng.choice([0, 0, 1, 2, 5, max(1, n // 2)])
             cases.append(td.make_case(rng, size, pos, evaluator, n, rng.random() < 0.4, reuse, _descend(rng, 0.25)))
     # searches rooted one to three plies before the end of a game, every kind of ending
     for size, per_class in ({3: 8, 4: 5, 5: 2} if ctx.thorough else {3: 3, 4: 2}).items():
